@@ -1,6 +1,8 @@
 package main
 
 import (
+	"go.uber.org/zap/exp/zapslog"
+	"log/slog"
 	"encoding/json"
 	"sync/atomic"
 	"fmt"
@@ -172,7 +174,7 @@ func (c *sfFailCore) Write(e zapcore.Entry, _ []zapcore.Field) error {
 }
 func (c *sfFailCore) Sync() error { return nil }
 
-const sfVariants = 11
+const sfVariants = 13
 
 // sfHangs counts logging calls that never returned; after a few, the Lock-wrapped variant is not replayed any more
 // (every further hang would cost its watchdog time)
@@ -208,7 +210,9 @@ func replaySinkFaults(b sfBeh, variant int) (finds []Finding) {
 	}
 	var core zapcore.Core = zapcore.NewTee(cores...)
 	names := []string{"tee", "hooked(tee)", "sampler(tee)", "tee.With", "lazy(tee)", "tee with a user core", "tee of hooked cores", "tee, sugared",
-		"tee, logger with AddCaller", "tee, logger with AddStacktrace", "tee of Lock-wrapped sinks"}
+		"tee, logger with AddCaller", "tee, logger with AddStacktrace", "tee of Lock-wrapped sinks",
+		"tee driven by the bare core protocol (Check(ent, nil) + Write, no error output)", "tee behind the slog handler (no error output)"}
+	noErrOut := variant >= 11
 	switch variant {
 	case 1:
 		core = zapcore.RegisterHooks(core, func(zapcore.Entry) error { return nil })
@@ -245,6 +249,14 @@ func replaySinkFaults(b sfBeh, variant int) (finds []Finding) {
 			defer close(finished)
 			defer func() { rec = recover() }()
 			switch {
+			case variant == 11:
+				// a front end of the caller's own: the documented core protocol, nowhere to report to
+				ent := zapcore.Entry{Level: zapcore.ErrorLevel, Message: msg, Time: time.Unix(0, 0)}
+				if ce := core.Check(ent, nil); ce != nil {
+					ce.Write(zap.Int("k", 1))
+				}
+			case variant == 12:
+				slog.New(zapslog.NewHandler(core)).Error(msg, "k", 1)
 			case b.Term[e] && e%2 == 0:
 				lg.Panic(msg)
 			case b.Term[e]:
@@ -266,6 +278,12 @@ func replaySinkFaults(b sfBeh, variant int) (finds []Finding) {
 			atomic.AddInt32(&sfHangs, 1)
 			add("C10/sink:hang", "%s: entry %d: the logging call did not return within 5 s (a destination failed earlier)\n%s", desc, e+1, firstLines(stacks(), 40))
 			return finds
+		}
+		if noErrOut {
+			if rec != nil || !returned {
+				add("C10/sink:panic", "%s: entry %d: the logging call did not return normally: %v", desc, e+1, rec)
+			}
+			continue
 		}
 		if b.Term[e] {
 			if rec == nil {
